@@ -342,8 +342,30 @@ def multi_world():
         LeafSpec("EL1", "e1", ABC, (), min_rows=0, max_rows=3),
         LeafSpec("I1", "e1", (), ((),), special="identity"),
         LeafSpec("IS", "s", (), ((),), special="identity"),
+        # twins: compare (and hash) equal to L / X - name, engine and columns are all that leaf equality looks at -
+        # but hold other rows.  Anything memoised on relation *values* (round 9: conform wrappers, subquery
+        # payloads, row bounds, support checks) confuses a twin with its sibling
+        LeafSpec("Ltwin", "e1", ABC, YROWS, leaf_name="L"),
+        LeafSpec("Xtwin", "s", ABC, YROWS, leaf_name="X"),
     )
     return World(engines=(("s", "sql"), ("e1", "it"), ("e2", "it")), leaves=leaves)
+
+
+# operations that bring a twin leaf next to its sibling, on either side of a transfer (C07, C15)
+MULTI_TWIN = (
+    ("xfer", "s"),
+    ("xfer", "e1"),
+    ("mat", "m1"),
+    ("sel", ("gt", ("ref", "a"), ("lit", 1))),
+    ("dedup",),
+    ("chain", ("Ltwin",)),
+    ("chain", ("Ltwin", ("xfer", "s"))),
+    ("chain", ("Ltwin", ("xfer", "s")), True),
+    ("chain", ("Xtwin",)),
+    ("chain", ("Xtwin", ("xfer", "e1"))),
+    ("chain", ("Ltwin", ("dedup",), ("mat", "mT"))),
+    ("chain", ("Xtwin", ("dedup",), ("xfer", "e1"), ("mat", "mU")), True),
+)
 
 
 def pe(op, eng, bt=True, tr=False, req=False):
